@@ -136,6 +136,13 @@ SPECS: List[Spec] = [
     S('hex.write_nth_hex', 'hex.write_nth_hex p, i, s', {'s': '1', 'i': 'W//4'},
       lambda V, P: {'buf': store(V, P, lambda o: z3.Concat(hi(o), V['s']), ptr=V['p'] + V['i'] * dwv(P))},
       '*(ptr + index*2w) = src', 'write_pointers.fj', pre=lambda V, P: z3.And(in_buf(V, P), z3.Or(*[V['p'] + V['i'] * dwv(P) == addr(P, 'buf', k) for k in range(NB)])), cases=cases_nth),
+    # hex-granularity and byte-granularity accesses mixed on one cell (they share the scratch byte hex.pointers.read_byte)
+    S('mixed: write_byte, read_hex, read_byte', 'hex.write_byte p, s\nhex.read_hex d, p\nhex.read_byte e, p', {'s': '2', 'd': '1', 'e': '2'},
+      lambda V, P: {'buf': store(V, P, lambda o: V['s']), 'd': lo(V['s']), 'e': V['s']}, '', 'read_pointers.fj'),
+    S('mixed: write_hex over a byte, read_byte, xor_byte_to_ptr', 'hex.write_hex p, s\nhex.read_byte e, p\nhex.xor_byte_to_ptr p, x', {'s': '1', 'e': '2', 'x': '2'},
+      lambda V, P: {'buf': store(V, P, lambda o: z3.Concat(hi(o), V['s']) ^ V['x']), 'e': z3.Concat(hi(deref(V, P)), V['s'])}, '', 'write_pointers.fj'),
+    S('mixed: xor_hex_from_ptr then write_byte', 'hex.xor_hex_from_ptr d, p\nhex.write_byte p, s\nhex.read_byte e, p', {'d': '1', 's': '2', 'e': '2'},
+      lambda V, P: {'buf': store(V, P, lambda o: V['s']), 'd': V['d'] ^ lo(deref(V, P)), 'e': V['s']}, '', 'xor_from_pointer.fj'),
     S('hex.ptr_jump', 'hex.ptr_jump p', {}, lambda V, P: {}, 'Jump to the address the pointer points to', 'basic_pointers.fj',
       pre=lambda V, P: z3.Or(V['p'] == P['_labels']['X_a'], V['p'] == P['_labels']['X_b']), exits=['X_a', 'X_b'],
       cases=lambda P: [{'p': P['_labels']['X_a']}, {'p': P['_labels']['X_b']}],
@@ -192,6 +199,9 @@ STACK: List[Spec] = [
     T('stack: nested call/return three deep with data on the stack', 'hex.push_hex a\nstl.call H_func\nstl.output \'R\'\nhex.pop_hex b', {'a': '1', 'b': '1'},
       lambda V, P: {'b': V['a']}, out='HGFghR'),
     T('stack: nested fcall/fret', 'stl.fcall FF_func, r1\nstl.output \'R\'\nstl.fcall FG_func, r2\nstl.output \'S\'', {}, lambda V, P: {}, out='fkRkS'),
+    T('stack: a hex popped from a cell that holds a byte, then bytes', 'hex.push_byte a\nhex.pop_hex z\nhex.push_byte b\nhex.pop_byte y\nhex.push_hex c\nhex.pop_byte x',
+      {'a': '2', 'b': '2', 'c': '1', 'x': '2', 'y': '2', 'z': '1'},
+      lambda V, P: {'z': lo(V['a']), 'y': V['b'], 'x': z3.Concat(hi(V['b']), V['c'])}),
     T('stack: sp_add / sp_sub', 'hex.sp_add 3\nhex.sp_sub 2\nhex.sp_inc\nhex.sp_dec\nhex.sp_dec', {}, lambda V, P: {}),
 ]
 SPECS += STACK
